@@ -1,4 +1,5 @@
 import Hub.Proofs.RefIdx
+import Hub.Proofs.OutScan
 import Hub.Model.Store
 import Hub.Generated.Layout
 /-!
@@ -27,6 +28,81 @@ theorem index_step (vs : List Ver) (ks : List Key) (v : Ver) (inBatch : Bool)
 /-- the empty index agrees with the empty history. -/
 theorem index_init (r : Ref) (at_ : Nat) : liveAt [] r at_ ↔ specLive [] r at_ := by
   simp [liveAt, specLive, lastLE]
+
+/-! ## the outgoing query -/
+open Hub.Store Hub.OutScan in
+/-- T-C03-2 (scan side): the unpaged outgoing query returns the pair (p, target) — exactly once, and without a
+continuation — iff `p` passes the predicate filter and for some in-scope, non-deleted dataset the NEWEST reference
+key of (source, p, target, dataset) recorded at or before `at` is not a tombstone. For every database, source,
+predicate filter, instant and scope (the `seen` / `added` bookkeeping of the reverse scan, the D3 fix included). -/
+theorem outgoing_unpaged (db : DB) (src pred at_ : Nat) (scope : List Nat) :
+    let res := (relatedOut db src pred at_ 0 scope none).1
+    (∀ p t, (∃ r ∈ res, r.pred = p ∧ r.other = t) ↔
+        predOK pred p ∧ ∃ ds, inScope db scope ds = true ∧ NewestLive db src at_ p t ds)
+    ∧ (res.map fun r => (r.pred, r.other)).Nodup
+    ∧ (relatedOut db src pred at_ 0 scope none).2 = none :=
+  relatedOut_unpaged db src pred at_ scope
+
+/-- the reference keys of one (dataset, referencing entity), as the index model of `index_step` sees them. -/
+def keysOf (db : Hub.Store.DB) (src ds : Nat) : List Key :=
+  (db.refs.filter fun k => k.src == src && k.ds == ds).map fun k => ⟨k.t, (k.pred, k.tgt), k.del⟩
+
+open Hub.Store Hub.OutScan in
+theorem liveAt_iff_newestLive (db : DB) (src ds p t at_ : Nat) :
+    liveAt (keysOf db src ds) (p, t) at_ ↔ NewestLive db src at_ p t ds := by
+  unfold liveAt NewestLive keysOf
+  constructor
+  · rintro ⟨k, hk, hr, hle, hd, hmax⟩
+    obtain ⟨rk, hrk, rfl⟩ := List.mem_map.1 hk
+    simp only [List.mem_filter, Bool.and_eq_true, beq_iff_eq] at hrk
+    simp only [Prod.mk.injEq] at hr
+    refine ⟨rk, hrk.1, hrk.2.1, by simp [triple, hr.1, hr.2, hrk.2.2], hle, hd, ?_⟩
+    intro k' hk' hs' ht' hle'
+    have h1 : k'.pred = p := by have := congrArg (·.1) ht'; simpa using this
+    have h2 : k'.tgt = t := by have := congrArg (·.2.1) ht'; simpa using this
+    have h3 : k'.ds = ds := by have := congrArg (·.2.2) ht'; simpa using this
+    have := hmax ⟨k'.t, (k'.pred, k'.tgt), k'.del⟩
+      (List.mem_map.2 ⟨k', by simp [List.mem_filter, hk', hs', h3], rfl⟩) (by simp [h1, h2]) hle'
+    simpa [Key.rank, rank] using this
+  · rintro ⟨rk, hrk, hs, htr, hle, hd, hmax⟩
+    have h1 : rk.pred = p := by have := congrArg (·.1) htr; simpa using this
+    have h2 : rk.tgt = t := by have := congrArg (·.2.1) htr; simpa using this
+    have h3 : rk.ds = ds := by have := congrArg (·.2.2) htr; simpa using this
+    refine ⟨⟨rk.t, (rk.pred, rk.tgt), rk.del⟩, List.mem_map.2 ⟨rk, by simp [List.mem_filter, hrk, hs, h3], rfl⟩,
+      by simp [h1, h2], hle, hd, ?_⟩
+    intro k' hk' hr' hle'
+    obtain ⟨rk', hrk', rfl⟩ := List.mem_map.1 hk'
+    simp only [List.mem_filter, Bool.and_eq_true, beq_iff_eq] at hrk'
+    simp only [Prod.mk.injEq] at hr'
+    have := hmax rk' hrk'.1 hrk'.2.1 (by simp [triple, hr'.1, hr'.2, hrk'.2.2]) hle'
+    simpa [Key.rank, rank] using this
+
+open Hub.Store Hub.OutScan in
+/-- **T-C03-2: the outgoing query equals the graph implied by the latest versions.** If, for the referencing entity
+`src`, the reference index of every dataset agrees with that dataset's version history `vs ds` (the invariant
+`index_step` preserves write by write, from `index_init`), then the unpaged outgoing query as of `at` returns the pair
+(p, target) — once — iff `p` passes the predicate filter and some in-scope, non-deleted dataset's last version of `src`
+recorded at or before `at` is not deleted and carries the reference. -/
+theorem outgoing_eq_graph (db : DB) (src pred at_ : Nat) (scope : List Nat) (vs : Nat → List Ver)
+    (hI : ∀ ds r a, liveAt (keysOf db src ds) r a ↔ specLive (vs ds) r a) :
+    let res := (relatedOut db src pred at_ 0 scope none).1
+    (∀ p t, (∃ r ∈ res, r.pred = p ∧ r.other = t) ↔
+        predOK pred p ∧ ∃ ds, inScope db scope ds = true ∧ specLive (vs ds) (p, t) at_)
+    ∧ (res.map fun r => (r.pred, r.other)).Nodup := by
+  intro res
+  obtain ⟨h1, h2, _⟩ := relatedOut_unpaged db src pred at_ scope
+  refine ⟨?_, h2⟩
+  intro p t
+  rw [h1 p t]
+  constructor
+  · rintro ⟨hp, ds, hs, hn⟩
+    exact ⟨hp, ds, hs, (hI ds (p, t) at_).1 ((liveAt_iff_newestLive db src ds p t at_).2 hn)⟩
+  · rintro ⟨hp, ds, hs, hn⟩
+    exact ⟨hp, ds, hs, (liveAt_iff_newestLive db src ds p t at_).1 ((hI ds (p, t) at_).2 hn)⟩
+
+-- the hypothesis of `outgoing_eq_graph` is met by the empty store (and kept by every write: `index_step`)
+example (src ds : Nat) (r : Ref) (a : Nat) : liveAt (keysOf {} src ds) r a ↔ specLive [] r a := by
+  simpa [keysOf] using index_init r a
 
 /-! ## tie to the Go source (regenerated facts) -/
 open Hub.Facts.Layout in
